@@ -849,8 +849,11 @@ def judge_progress(case, res, rec, side):
     c: Consumed = res["consumed"]
     st = res["run"]
     if res.get("reader_type") == "EmptyStreamReader" and (c.ops_exceeded or st == "budget"):
-        # classifier: the consumer was iterating the shared EMPTY_PAYLOAD object and never saw the end marker
-        v.append((f"{side}:progress:chunk-iteration-on-empty-payload-never-ends", f"{c.ops} consumer operations on an empty body ({res['reader_type']}), run={st}, outcome {c.outcome}"))
+        # classifier: the consumer was reading the shared EMPTY_PAYLOAD object and never saw the end marker; which
+        # API it used (async-for over iter_chunks() vs. its own readchunk() loop) is part of the witness
+        direct = (case.get("consumer") or {}).get("mode", "ops") == "ops"
+        mech = "readchunk-loop-on-shared-empty-payload-never-ends" if direct else "chunk-iteration-on-empty-payload-never-ends"
+        v.append((f"{side}:progress:{mech}", f"{c.ops} consumer operations on an empty body ({res['reader_type']}), run={st}, outcome {c.outcome}"))
         return v
     if st == "until":
         if c.ops_exceeded:
